@@ -295,6 +295,7 @@ def check_class(run, repo, eff, fr, ci, fams, encs):
                     'a register operand is read after a register was written: when the two numbers coincide the new value is used')
     # ---- T, PC, X per assignment of the addressing booleans ----
     bools = [b for b in BOOLS if b in fields]
+    arm_values = sorted({bool(re.search(r'A\d$', en)) for en in encs}) or [False, True]
     nasg = 0
     for vals in itertools.product((True, False), repeat=len(bools)):
         asg = dict(zip(bools, vals))
@@ -392,6 +393,7 @@ def check_class(run, repo, eff, fr, ci, fams, encs):
                 if not store_value_ok(v, fam, slot, N(e.d['size'], asg), e):
                     bad('C02-T', 'stored value [%s]' % tag, 'memory receives `%s`; the template value is %s' % (
                         fmt(v)[:140], 'R[t] truncated to %d bits' % (8 * min(fam.size, 4)) if fam.size < 8 else 'R[t] / R[t2] (R[t]:R[t2] by endianness)'))
+        check_legacy_arms(bad, fam, evs, mems, addr_ok, addr_slot, asg, tag, arm_values)
         # write-back
         wbs = [e for e in evs if e.kind == 'RegWrite' and e.d['idx'] == ('field', 'n')]
         if tp.wb and not wbs:
@@ -467,6 +469,96 @@ def check_class(run, repo, eff, fr, ci, fams, encs):
                     bad('C02-PC', 'alignment test', 'load_write_pc is not guarded by address<1:0> == 00')
     run.instance('C02-T', ci.name, obligations=9 * nasg, ok=ok[0],
                  sample={'class': ci.name, 'family': fam.describe(), 'assignments': nasg, 'encodings': sorted(encs)})
+
+
+def legacy_truth(t, us, al, arm, addr_ok, size):
+    """Three-valued truth of a guard term over the atoms UnalignedSupport(), address<k:0> == 0 (k = 1 for words, 0 for
+    halfwords; on the access address only) and CurrentInstrSet() == ARM; None = the term is about something else."""
+    if not isinstance(t, tuple) or not t:
+        return None
+    if t[0] == 'pcall' and t[1] == 'unaligned_support':
+        return us
+    if t[0] == 'not':
+        r = legacy_truth(t[1], us, al, arm, addr_ok, size)
+        return None if r is None else not r
+    if t[0] in ('and', 'or'):
+        rs = [legacy_truth(x, us, al, arm, addr_ok, size) for x in t[1]]
+        if t[0] == 'and':
+            return False if False in rs else (True if all(r is True for r in rs) else None)
+        return True if True in rs else (False if all(r is False for r in rs) else None)
+
+    def low_bits(x):
+        # the low address bits whose being zero means "aligned for this access"
+        if x[0] == 'call' and x[1] == 'lower_chunk' and x[2][1] == const(2 if size == 4 else 1) and repr(x[2][0]) in addr_ok:
+            return True
+        if size == 2 and x[0] == 'call' and x[1] == 'bit_at' and x[2][1] == const(0) and repr(x[2][0]) in addr_ok:
+            return True
+        return False
+    if low_bits(t):
+        return not al                                     # truthiness of the low bits
+    if t[0] == 'cmp' and t[1] in ('Eq', 'NotEq'):
+        for a, b in ((t[2], t[3]), (t[3], t[2])):
+            if b == const(0) and low_bits(a):
+                return al if t[1] == 'Eq' else not al
+            if a == ('rcall', 'current_instr_set', ()) and b == ('enum', 'InstrSet', 'ARM'):
+                return arm if t[1] == 'Eq' else not arm
+            if a == ('rcall', 'current_instr_set', ()) and b[0] == 'enum' and b[1] == 'InstrSet' and arm:
+                return t[1] != 'Eq'                       # in ARM state the set is no other member
+    return None
+
+
+def legacy_guard(guards, us, al, arm, addr_ok, size, asg):
+    """Is an event under `guards` live for this valuation of the three atoms?  Guards about other things are ignored."""
+    for term, pol, _ in guards:
+        r = legacy_truth(N(term, asg), us, al, arm, addr_ok, size)
+        if r is not None and r != pol:
+            return False
+    return True
+
+
+def check_legacy_arms(bad, fam, evs, mems, addr_ok, addr_slot, asg, tag, arm_values):
+    """C02-K: before ARMv7 (no unaligned support) an unaligned halfword/word transfer is UNKNOWN - or, for ARM-state word
+    loads, the rotated word; the REAL transfer must still happen whenever
+        UnalignedSupport() || address aligned [|| CurrentInstrSet() == ARM   for STR (register), STRT, STR (immediate, ARM)]
+    and the rotation exactly on the complement in ARM state.  (UNKNOWN may be refined by any value, so only this direction
+    is an obligation.)"""
+    if fam.size not in (2, 4) or fam.excl:
+        return
+    arm_clause = (not fam.load) and fam.size == 4
+    leaves = []
+    if fam.load:
+        for e in evs:
+            if e.kind == 'RegWrite' and e.d['idx'] == ('field', 't'):
+                for v, g in split_ite(N(e.d['value'], asg), tuple(e.guards)):
+                    leaves.append((v, g.guards))
+    else:
+        for e in mems:
+            if e.kind == 'MemWrite' and addr_slot(e.d['addr']) == 0:
+                for v, g in split_ite(N(e.d['value'], asg), tuple(e.guards)):
+                    leaves.append((v, g.guards))
+    if not leaves:
+        return
+    for us in (False, True):
+        for al in (False, True):
+            for arm in arm_values:
+                live_real = any(legacy_guard(g, us, al, arm, addr_ok, fam.size, asg) for v, g in leaves
+                                if not (v == const(0) or (v[0] == 'call' and v[1] == 'ror')))
+                live_ror = any(legacy_guard(g, us, al, arm, addr_ok, fam.size, asg) for v, g in leaves
+                               if v[0] == 'call' and v[1] == 'ror')
+                must = us or al or (arm and arm_clause)
+                where = 'UnalignedSupport()=%s, address %saligned, %s state' % (us, '' if al else 'un', 'ARM' if arm else 'Thumb')
+                if must and not live_real:
+                    bad('C02-K', 'legacy unaligned arm [%s]' % tag,
+                        'with %s the architecture performs the real transfer (%s), but the tree only has the UNKNOWN / rotated arm there'
+                        % (where, 'UnalignedSupport() || aligned' + (' || CurrentInstrSet() == ARM' if arm_clause else '')))
+                if fam.load and fam.size == 4 and not must and arm and live_real and any(
+                        v[0] == 'call' and v[1] == 'ror' for v, g in leaves):
+                    bad('C02-K', 'legacy rotated load [%s]' % tag,
+                        'with %s the loaded word is rotated right by 8*address<1:0>; the tree also writes the unrotated word there' % where)
+                if fam.load and fam.size == 4 and not must and arm and not live_ror and any(
+                        v[0] == 'call' and v[1] == 'ror' for v, g in leaves) and not live_real:
+                    bad('C02-K', 'legacy rotated load [%s]' % tag,
+                        'with %s the loaded word is rotated right by 8*address<1:0>; the tree has no rotated arm there' % where)
 
 
 def aligned_word_test(g, addr_ok):
@@ -692,6 +784,8 @@ def controls(run, repo_path, repo, eff, fr, classes):
             ('StrhRegister', swap_wback, 'write-back moved before the store'),
             ('LdrsbLiteral', lambda s: s.replace('sign_extend(processor.mem_u_get(address, 1), 8, 32)', 'processor.mem_u_get(address, 1)'),
              'sign extension dropped'),
+            ('StrRegister', lambda s: re.sub(r'\s+or\s*\n?\s*processor\.registers\.current_instr_set\(\) == InstrSet\.ARM', '', s),
+             'ARM-state clause of the legacy unaligned store dropped'),
             ('Strexb', lambda s: re.sub(r'exclusive_monitors_pass\(address, 1\)', 'exclusive_monitors_pass(address, 4)', s),
              'monitor size differs from the access size')):
         if cname not in classes:
